@@ -1055,7 +1055,7 @@ def subprocess_pair(trace, res):
             if r.chance(0.3):
                 opts['check'] = True
             argv = argv + cli_pipeline.cli_args(opts) + [os.path.join(d, f'in{mi}.penman'), '--encoding', 'utf-8']
-            outs = [cli.run_subprocess(argv, cwd=d, hashseed=hs) for hs in ('0', '777')]
+            outs = [cli.run_subprocess(argv, cwd=d, hashseed=hs, optimize=(hs == '777')) for hs in ('0', '777')]
             res.hit('probe.subprocess_hashseed_pair')
             res.event('subprocess', mi, outs[0][0], digest.sha(outs[0][1].hex()))
             if outs[0][:2] != outs[1][:2]:
